@@ -1587,7 +1587,12 @@ class DynamicBase(BaseSpaceImpl):
         ItemSpaceParent.on_namespace_change(self)
         # Use dict instead of list to avoid duplicates
         for r in {s.rootspace: True for s in self._dynamic_subs}:
-            r.del_all_itemspaces()
+            if r._dynbase is self:
+                # An ItemSpace made from this space by the formula of
+                # another space
+                r.parent.clear_itemspace_at(r.argvalues_if)
+            else:
+                r.del_all_itemspaces()
 
     def change_dynsub_refs(self, name):
 
